@@ -205,6 +205,30 @@ func main() {
 	h.Tick(0)
 }
 `},
+	{"two-consumers-one-buffered-channel", `package main
+
+import "h"
+
+func main() {
+	c := make(chan int, 1)
+	done := make(chan bool)
+	for w := 0; w < 2; w++ {
+		go func() {
+			for v := range c {
+				h.Tick(v)
+			}
+			done <- true
+		}()
+	}
+	for i := 0; i < PN; i++ {
+		c <- i
+	}
+	close(c)
+	<-done
+	<-done
+	h.Tick(0)
+}
+`},
 	{"var-init-then-init-then-main", `package main
 
 import "h"
@@ -651,7 +675,7 @@ func main() {
 	r.Set("subtrees_capped", capped)
 	r.Set("exhaustive", capped == 0 && len(res.Abnormal) == 0)
 	r.Set("scenarios", per)
-	r.Set("rule", "12 programs (busy loop, recursion, closure loop, host-driven callback loop, goroutine tree, blocked send, blocked receive, select without default, range over channel, buffered producer/consumer, package-variable initialiser + init + main, two inits) x 3 entry points (EvalWithContext, ExecuteWithContext, EvalPathWithContext on a virtual filesystem) x {fresh interpreter, interpreter that already completed a plain evaluation}; the canceller is an environment thread enabled at every scheduling point: every cancellation point k x every schedule with <= bound deviations from the default (run the current thread, else the lowest id; deviations = preemptions, other thread / select-case / rendezvous-partner choices; scheduling the canceller is free); non-trivial = executions in which the cancel landed while the evaluation was running")
+	r.Set("rule", "13 programs (busy loop, recursion, closure loop, host-driven callback loop, goroutine tree, blocked send, blocked receive, select without default, range over channel, buffered producer/consumer, two consumers ranging over one buffered channel, package-variable initialiser + init + main, two inits) x 3 entry points (EvalWithContext, ExecuteWithContext, EvalPathWithContext on a virtual filesystem) x {fresh interpreter, interpreter that already completed a plain evaluation}; the canceller is an environment thread enabled at every scheduling point: every cancellation point k x every schedule with <= bound deviations from the default (run the current thread, else the lowest id; deviations = preemptions, other thread / select-case / rendezvous-partner choices; scheduling the canceller is free); non-trivial = executions in which the cancel landed while the evaluation was running")
 	r.Assumptions = []string{"deferred native calls that run while a cancelled goroutine unwinds are not counted (the family contains no defers)", "moments before the first interpreted operation (parse/compile) are outside 'k counted in interpreted operations'", "YAEGI_FAST_CHAN=1 is outside the property"}
 	r.Sample(map[string]interface{}{"scenario": scs[0].name(), "schedule": []int{}, "src": family[0].Src})
 	if len(jobs) > 0 {
